@@ -4,6 +4,9 @@ import Rtsp.Proofs.Sess.Timer
 import Rtsp.Proofs.Sess.Step
 import Rtsp.Proofs.Sess.Resp
 import Rtsp.Proofs.Sess.Ends
+import Rtsp.Proofs.Sess.Wf
+import Rtsp.Proofs.Sess.A2
+import Rtsp.Proofs.Sess.Reasons
 /-
 C02 — server sessions follow the RTSP state machine; one response per request.
 
@@ -191,6 +194,97 @@ theorem session_ends_once (cfg : Config) (evs : List Event) (id : Nat) :
   refine ⟨ho, hc, ?_, ?_⟩
   · rw [hc]; split <;> omega
   · rw [hc, ho]; split <;> split <;> simp_all
+
+/-- **session_ends_once** (structural half) — the invariant of every reachable server state:
+connections and sessions point at each other consistently (`WFc`: distinct identifiers, a
+connection's `session` names a live session that lists it, every listed connection is open and
+points back), and **a live session that has no connection is streaming over UDP or multicast**
+(`NoLeak`) — i.e. whenever the last connection of a session goes away the session is ended in the
+same step unless it is streaming over UDP / multicast, where only the stream timeout (`expire`)
+ends it.  All histories of connects, requests, client-side closes and expiries. -/
+theorem invariant_all_histories (cfg : Config) (evs : List Event) :
+    WFc (run cfg {} evs).1 ∧ NoLeak (run cfg {} evs).1 := run_inv wfc_init noLeak_init cfg evs
+
+/-- the same, spelled out for one session -/
+theorem alive_has_conn_or_udp_streaming (cfg : Config) (evs : List Event) (ss : Session)
+    (h : ss ∈ (run cfg {} evs).1.sessions) :
+    (∃ cn ∈ (run cfg {} evs).1.conns, cn.sess = some ss.id ∧ cn.id ∈ ss.conns) ∨
+    ((ss.state = .play ∨ ss.state = .record) ∧ ss.transport ≠ some .tcp) := by
+  obtain ⟨hw, hn⟩ := invariant_all_histories cfg evs
+  cases hc : ss.conns with
+  | nil =>
+    right
+    obtain ⟨h1, h2⟩ := hn ss h hc
+    refine ⟨?_, h2⟩
+    cases hs : ss.state <;> simp_all [isStreaming]
+  | cons c cs =>
+    left
+    obtain ⟨cn, hcn, hid, hl⟩ := hw.link2 ss h c (by rw [hc]; exact List.mem_cons_self)
+    exact ⟨cn, hcn, hl, by rw [hid, ← hc]; rw [hc]; exact List.mem_cons_self⟩
+
+/-- the three ways a session ends in the model: successful TEARDOWN (`teardown_ends`), the
+"no connection left" rule when a connection goes away, and the stream timeout; this is the rule -/
+theorem unused_rule (ss : Session) :
+    endsWhenUnused ss = true ↔
+      ss.conns = [] ∧ ¬ ((ss.state = .play ∨ ss.state = .record) ∧ ss.transport ≠ some .tcp) := by
+  unfold endsWhenUnused isStreaming
+  cases hs : ss.state <;> cases hc : ss.conns <;> cases ht : ss.transport <;> simp
+  all_goals (rename_i p; cases p <;> simp)
+
+/-- **session_ends_once** (the "only" half): in any step from any state, a session that was alive
+before and is gone after ended for one of the listed reasons — its stream timeout fired; a TEARDOWN
+was answered 200 (without error); the client closed a connection, or the server closed one after an
+error response, and that connection was the session's only one at that moment (and the session was
+not streaming over UDP / multicast: `endsWhenUnused`, see `unused_rule`). -/
+theorem ends_only_for_a_reason (cfg : Config) (srv : Server) (e : Event) (id : Nat)
+    (hid : id ∈ sessIds srv) (hgone : id ∉ sessIds (stepEv cfg srv e).1) :
+    e = .expire id ∨
+    (∃ c r res, e = .req c r ∧ (stepEv cfg srv e).2 = some res ∧ r.method = .teardown ∧
+        res.status = 200 ∧ res.err ≠ .fail) ∨
+    (∃ c cn ss, e = .close c ∧ findConn srv c = some cn ∧ cn.sess = some id ∧ findSession srv id = some ss ∧
+        (∀ x ∈ ss.conns, x = c) ∧ endsWhenUnused { ss with conns := ss.conns.erase c } = true) ∨
+    (∃ c r res cn srv1 ss1, e = .req c r ∧ (stepEv cfg srv e).2 = some res ∧ res.err = .fail ∧
+        findConn srv c = some cn ∧ srv1 = (connInner cfg srv cn r).1 ∧ findSession srv1 id = some ss1 ∧
+        (∀ x ∈ ss1.conns, x = cn.id) ∧ endsWhenUnused { ss1 with conns := ss1.conns.erase cn.id } = true) :=
+  Sess.ends_only_for_a_reason cfg srv e id hid hgone
+
+/-- non-vacuity: a reader over UDP in pre-play whose only connection is closed ends; once it plays
+it survives the same close (and only `expire` or a TEARDOWN from a new connection ends it). -/
+example :
+    let pre : List Event := [.open 0 0, .req 0 { method := .setup, trs := some [{ proto := .udp }] }]
+    sessIds (run {} {} (pre ++ [.close 0])).1 = [] ∧
+    sessIds (run {} {} (pre ++ [.req 0 { method := .play, sid := .id 0 }, .close 0])).1 = [0] ∧
+    sessIds (run {} {} (pre ++ [.req 0 { method := .play, sid := .id 0 }, .close 0, .expire 0])).1 = [] := by
+  decide
+
+/-- in a reachable state the connection is closed after a response **iff** the request ended in an
+error (an error status written by the library itself, or an error returned by the handler) -/
+theorem conn_closed_iff_error (cfg : Config) (evs : List Event) (cn : Conn)
+    (hcn : cn ∈ (run cfg {} evs).1.conns) (r : Request) :
+    findConn (handleRequest cfg (run cfg {} evs).1 cn r).1 cn.id = none ↔
+      (handleRequest cfg (run cfg {} evs).1 cn r).2.err = .fail :=
+  Sess.conn_closed_iff_error (invariant_all_histories cfg evs).1 cfg hcn r
+
+/-- every reachable session record is well-shaped (`SessOk`: a publisher has announced ≥ 1 media and
+set all of them up before recording, a reader has ≥ 1 media set up, …) -/
+theorem session_shape (cfg : Config) (evs : List Event) : ∀ ss ∈ (run cfg {} evs).1.sessions, SessOk ss :=
+  AllOk.run allOk_init cfg evs
+
+/-- **refines_rfc2326_A2**: mapped to Init / Ready / Playing / Recording (`Rfc2326.abs`), a request
+answered 200 moves a well-shaped session exactly along the server state table of RFC 2326 appendix
+A.2; methods outside that table leave the A.2 state alone; the one pair outside the table that can be
+answered 200 — PAUSE outside Playing / Recording — leaves it alone too. -/
+theorem refines_rfc2326_A2 (cfg : Config) (ss : Session) (c : Nat) (r : Request) (hok : SessOk ss)
+    (h : (sessInner cfg ss c r).2.status = 200) :
+    let a := Rfc2326.abs ss.state ss.medias.length
+    let a' := Rfc2326.abs (sessInner cfg ss c r).1.state (sessInner cfg ss c r).1.medias.length
+    (r.method = .setup ∨ r.method = .play ∨ r.method = .record → a2next a r.method = some a') ∧
+    (r.method = .pause → a2next a .pause = some a' ∨ (a2next a .pause = none ∧ a' = a)) ∧
+    (r.method.neutral = true ∨ r.method = .announce → a' = a) :=
+  refines_A2 cfg ss c r hok h
+
+example : SessOk { id := 0, authorIp := 0, conns := [0], state := .prePlay, transport := some .udp, medias := [0] } := by
+  constructor <;> simp
 
 /-! ## timing clauses -/
 
